@@ -24,7 +24,7 @@ func genC04(r *Rand, tier string, i int) *h.Scenario {
 	p.PExt = 0.4
 	p.PDelay = 0.15
 	p.WWrite = 5
-	p.PQueueAfter = 0
+	p.PQueueAfter = 0.1 // wave 15 (s228): a finished bar with successors in pop mode, priority calls in between
 	p.RefreshW = [3]int{5, 2, 2}
 	p.PPop = 0.25
 	p.NoSpinner = false
